@@ -620,13 +620,16 @@ def init_spectral_lines(table):
     """
     Sets the K_alpha and K_beta1 wavelengths for select elements
     """
-    Element.K_alpha_units = "angstrom"
-    Element.K_beta1_units = "angstrom"
     for row in spectral_lines_data.split('\n'):
         el, K_alpha, K_beta1 = row.split()
         el = table.symbol(el)
         el.K_alpha = float(K_alpha)
         el.K_beta1 = float(K_beta1)
+    # Set the units after the per-element values: if the delayed-load
+    # properties are still pending, the first assignment above clears all
+    # of them, including the units.
+    Element.K_alpha_units = "angstrom"
+    Element.K_beta1_units = "angstrom"
 
 def init(table, reload=False):
 
